@@ -80,6 +80,19 @@ func main() {
 			evidenceDir = filepath.Join(*verif, "evidence")
 		}
 		os.Exit(runCheck(*repo, *verif, args[0], tier, *keep, *only, *verbose))
+	case "overlay":
+		// govc overlay <dir>: writes the p2p.Run-stripped overlay used for replays into <dir>
+		dir := os.Args[2]
+		os.MkdirAll(dir, 0o755)
+		eng := &Engine{fset: token.NewFileSet(), repo: "/repo", verifDir: "/verif"}
+		if len(os.Args) > 3 {
+			eng.repo = os.Args[3]
+		}
+		p := stripP2P(eng, dir)
+		ov := map[string]map[string]string{"Replace": {filepath.Join(eng.repo, "node/pkg/p2p/p2p.go"): p}}
+		b, _ := json.Marshal(ov)
+		os.WriteFile(filepath.Join(dir, "overlay.json"), b, 0o644)
+		fmt.Println(filepath.Join(dir, "overlay.json"))
 	default:
 		fmt.Println("unknown command")
 		os.Exit(2)
